@@ -207,6 +207,8 @@ class PureTr:
             return f"(if {c[0]} then {a[0]} else {b[0]})", a[1]
         if isinstance(e, ast.Call):
             d = self.dotted(e.func)
+            if d in getattr(self, "rawcalls", {}):
+                return self.rawcalls[d](self, e)
             if d in self.calls:
                 args = [self.expr(a) for a in e.args]
                 kw = {k.arg: self.expr(k.value) for k in e.keywords}
@@ -313,3 +315,107 @@ def class_bases(mod, cls):
         if isinstance(n, ast.ClassDef) and n.name == cls:
             return [b.id for b in n.bases if isinstance(b, ast.Name)]
     raise Unsupported(f"class {cls} not found")
+
+
+class MonadTr(PureTr):
+    """Statement translator into a state monad: effectful right-hand sides (recognised by self.effects,
+    a list of functions node -> (coq, type) | None) become binds; `self.<field> = e`, `self.<field> += e`
+    and `self.<field>.append(e)` become setters from self.fields; after every effect the bound names in
+    self.rebind are re-read so reads see current state."""
+
+    def __init__(self, src_file, fields, effects, rebind, **kw):
+        super().__init__(src_file, **kw)
+        self.fields, self.effects, self.rebind = fields, effects, rebind
+
+    def effect(self, e):
+        for fn in self.effects:
+            r = fn(self, e)
+            if r is not None:
+                return r
+        return None
+
+    def self_field(self, t):
+        if isinstance(t, ast.Attribute) and isinstance(t.value, ast.Name) and t.value.id == "self" and t.attr in self.fields:
+            return self.fields[t.attr]
+        return None
+
+    def mblock(self, stmts):
+        if not stmts:
+            raise Unsupported(f"{self.src}: function falls off the end without return")
+        s, rest = stmts[0], stmts[1:]
+        if isinstance(s, ast.Expr) and isinstance(s.value, ast.Constant) and isinstance(s.value.value, str):
+            return self.mblock(rest)
+        if isinstance(s, ast.Pass):
+            return self.mblock(rest)
+        if isinstance(s, ast.Return):
+            eff = self.effect(s.value) if s.value is not None else None
+            if eff:
+                return eff[0]
+            if s.value is None:
+                return "(ret tt)"
+            v = self.expr(s.value)
+            if isinstance(v, Const):
+                self.bad(s, "return of a constant")
+            return f"(ret {self.fix(v)[0]})"
+        if isinstance(s, ast.Assign) and len(s.targets) == 1:
+            t = s.targets[0]
+            if isinstance(t, ast.Name):
+                eff = self.effect(s.value)
+                if eff:
+                    nm = self.fresh(t.id)
+                    self.env[t.id] = (nm, eff[1])
+                    return f"({nm} <- {eff[0]} ;; {self.rebind}\n {self.mblock(rest)})"
+                v = self.expr(s.value)
+                if isinstance(v, Const):
+                    self.env[t.id] = v
+                    return self.mblock(rest)
+                c, ty = self.fix(v)
+                nm = self.fresh(t.id)
+                self.env[t.id] = (nm, ty)
+                return f"(let {nm} := {c} in\n {self.mblock(rest)})"
+            fld = self.self_field(t)
+            if fld:
+                f, ty = fld
+                v = self.expr(s.value)
+                if isinstance(v, Const):
+                    self.bad(s, "constant assigned to field")
+                c, tv = self.fix(v)
+                if ty == "option Z" and tv == "Z":
+                    c = f"(Some {c})"
+                elif ty != tv:
+                    self.bad(s, f"assignment of {tv} to field of type {ty}")
+                return f"(set_{f} {c} ;;; {self.rebind}\n {self.mblock(rest)})"
+            self.bad(s, "assignment target")
+        if isinstance(s, ast.AugAssign) and isinstance(s.op, ast.Add):
+            fld = self.self_field(s.target)
+            if fld:
+                f, ty = fld
+                v = self.fix(self.expr(s.value))
+                if ty == v[1] == "Z":
+                    return f"(set_{f} (Z.add ({f} self) {v[0]}) ;;; {self.rebind}\n {self.mblock(rest)})"
+            self.bad(s, "augmented assignment")
+        if isinstance(s, ast.Expr) and isinstance(s.value, ast.Call):
+            f = s.value.func
+            if isinstance(f, ast.Attribute) and f.attr == "append" and len(s.value.args) == 1:
+                fld = self.self_field(f.value)
+                if fld and fld[1].startswith("list"):
+                    v = self.fix(self.expr(s.value.args[0]))
+                    return f"(push_{fld[0]} {v[0]} ;;; {self.rebind}\n {self.mblock(rest)})"
+            eff = self.effect(s.value)
+            if eff:
+                return f"({eff[0]} ;;; {self.rebind}\n {self.mblock(rest)})"
+            self.bad(s, "expression statement")
+        if isinstance(s, ast.If):
+            c = self.expr(s.test)
+            if isinstance(c, Const):
+                br = s.body if c.v else s.orelse
+                return self.mblock(br + ([] if self.returns(br) else rest))
+            if c[1] != "B":
+                self.bad(s, "non-boolean condition")
+            saved = dict(self.env)
+            a = self.mblock(s.body + ([] if self.returns(s.body) else rest))
+            self.env = dict(saved)
+            b = self.mblock(s.orelse + ([] if self.returns(s.orelse) else rest))
+            self.env = dict(saved)
+            return f"(if {c[0]}\n then {a}\n else {b})"
+        self.bad(s, "statement")
